@@ -64,6 +64,17 @@ struct World {
         b16.obj = new (b16.make_raw()) ST::utf16_buffer(); b32.obj = new (b32.make_raw()) ST::utf32_buffer(); bw.obj = new (bw.make_raw()) ST::wchar_buffer();
         for (auto &p : ss) p.obj = new (p.make_raw()) ST::string_stream();
     }
+    // live library heap blocks that are the storage of one of the objects (a block an object owns is not a leak, whatever its capacity)
+    size_t owned_blocks() const {
+        size_t n = 0;
+        for (const auto &p : s) if (p.obj && va::owns(p.obj->c_str(), 1)) n++;
+        for (const auto &p : cb) if (p.obj && va::owns(p.obj->data(), 1)) n++;
+        if (b16.obj && va::owns(b16.obj->data(), 1)) n++;
+        if (b32.obj && va::owns(b32.obj->data(), 1)) n++;
+        if (bw.obj && va::owns(bw.obj->data(), 1)) n++;
+        for (const auto &p : ss) if (p.obj && va::owns(p.obj->raw_buffer(), 1)) n++;
+        return n;
+    }
     // models follow what the objects report (after a successful step)
     void adopt_all() {
         for (int i = 0; i < NSTR; i++) ms[i].assign(s[i].obj->c_str(), s[i].obj->size());
@@ -133,7 +144,7 @@ std::string step(verif::Reader &r, Case &c, World &w, size_t k) {
     ST::string &S = *w.s[i].obj; ST::char_buffer &B = *w.cb[j].obj; ST::string_stream &Q = *w.ss[q].obj;
     bool target_long = false;
     const char *what = "";
-    size_t live_before = va::live_blocks();
+    size_t live_before = va::live_blocks() - w.owned_blocks();      // blocks that no object owns (the objects' footprints etc.): must not grow
     int thrown = NONE; std::string exwhat;
     // inputs are prepared outside the library scope
     std::string g8 = good_utf8(r, longv);
@@ -224,7 +235,7 @@ std::string step(verif::Reader &r, Case &c, World &w, size_t k) {
         w.note("[%d] FAILS(%s); ", op, exwhat.substr(0, 30).c_str());
         std::string why = w.unchanged();
         if (!why.empty()) return "step " + verif::unum(k) + " (op " + verif::num(op) + ") threw \"" + exwhat + "\" and afterwards " + why;
-        if (va::live_blocks() != live_before) return "step " + verif::unum(k) + " (op " + verif::num(op) + ") threw \"" + exwhat + "\" and leaked " + verif::num((long)va::live_blocks() - (long)live_before) + " heap block(s)";
+        if (va::live_blocks() - w.owned_blocks() != live_before) return "step " + verif::unum(k) + " (op " + verif::num(op) + ") threw \"" + exwhat + "\" and leaked " + verif::num((long)(va::live_blocks() - w.owned_blocks()) - (long)live_before) + " heap block(s) (blocks that no object owns)";
         bool anylong = false; for (int x = 0; x < NSTR; x++) if (w.ms[x].size() >= 16) anylong = true; for (int x = 0; x < NCB; x++) if (w.mcb[x].size() >= 16) anylong = true;
         if (anylong) w.pending_long_fail++;
     } else {
